@@ -83,6 +83,14 @@ def check_rows(case0, cfg, sh, problem, dd, samples, theta_ref, X, mll_impl, mll
         except Exception as e:
             part.violation(case, f"ln_unmarginalized_likelihood raised {type(e).__name__}: {e}")
             return
+        # the orbit is defined relative to samples.t_ref: the same observations wrapped with ANOTHER reference epoch
+        # (a held-out slice, follow-up data, ...) must give the same value
+        ds2 = data_star(dd, dd["labels"], x, no, sh["unit"], dd["t_ref"] + 3.375)
+        lnp2 = float(samples[i : i + 1].ln_unmarginalized_likelihood(ds2)[0])
+        if abs(lnp2 - lnp) > 1e-8 * (1 + abs(lnp)):
+            part.violation(case, "ln_unmarginalized_likelihood depends on the reference epoch of the data object instead of samples.t_ref",
+                           expected=lnp, observed=lnp2)
+            return
         d = x - a[i]
         sign, logdet = np.linalg.slogdet(2 * np.pi * A[i])
         lnpost = -0.5 * (d @ Ainv[i] @ d + logdet)
@@ -207,6 +215,33 @@ def check_cell(cfg, sh, seed, part, prior, dec, scratch):
         for c, nm in enumerate(names):
             hb[nm] = X[:, c] * (dunit / u.day ** (int(nm[1:]) if nm.startswith("v") else 0))
         check_rows(dict(case0, rows=f"hand-built-{variant}"), cfg, sh, problem, dd, hb, th_ref, X, mll_all, verd_all, exact_all, part)
+        if variant == 0 and cfg["n_offsets"] == 0:
+            # a table in which consecutive rows share P exactly but differ in (e, omega, M0) - a phase / omega scan at fixed
+            # period: every row's value must be what that row gives alone (whole-table call vs one-row tables)
+            scan = tj.JokerSamples(t_ref=hb.t_ref, poly_trend=cfg["poly_trend"], n_offsets=0)
+            nrep = 3
+            thr = np.repeat(th_ref[:4], nrep, axis=0)
+            thr[:, 1] = np.clip(thr[:, 1] + 0.07 * np.tile(np.arange(nrep), 4), 0, 0.95)
+            thr[:, 2] += 0.9 * np.tile(np.arange(nrep), 4)
+            thr[:, 3] += 1.7 * np.tile(np.arange(nrep), 4)
+            for c, (nm, un) in enumerate(zip(["P", "e", "omega", "M0", "s"], [u.day, u.one, u.rad, u.rad, dunit])):
+                scan[nm] = thr[:, c] * un
+            Xs = np.repeat(X[:4], nrep, axis=0)
+            for c, nm in enumerate(names):
+                scan[nm] = Xs[:, c] * (dunit / u.day ** (int(nm[1:]) if nm.startswith("v") else 0))
+            ds = data_star(dd, dd["labels"], Xs[0], 0, sh["unit"], dd["t_ref"])
+            whole = np.asarray(scan.ln_unmarginalized_likelihood(ds))
+            single = np.array([float(scan[i : i + 1].ln_unmarginalized_likelihood(ds)[0]) for i in range(len(scan))])
+            Mr = problem.M(thr)
+            var = (dd["sig"] * dd["factor"]) ** 2
+            want = np.array([np.sum(-0.5 * (np.log(2 * np.pi * (var + thr[i, 4] ** 2)) + (dd["y"] * dd["factor"] - Mr[i] @ Xs[i]) ** 2 / (var + thr[i, 4] ** 2)))
+                             for i in range(len(scan))])
+            part.evals += len(scan)
+            if not np.allclose(whole, single, rtol=1e-10, atol=1e-8) or not np.allclose(whole, want, rtol=1e-7, atol=1e-6):
+                part.violation(dict(case0, rows="fixed-period-scan", theta=thr.tolist()),
+                               "ln_unmarginalized_likelihood of a row depends on the rows stored before it (table with consecutive rows sharing P)",
+                               expected=want, observed=whole)
+                return
         if variant == 1:
             # the SAME object (its orbits were just built) after wrap_K(): every row still denotes the same curve
             hb.wrap_K()
